@@ -323,6 +323,82 @@ def r4(ctx, sc):
 
 # ---------------------------------------------------------------- driver
 
+# ---------------------------------------------------------------- R5
+
+def _eval_slice(fn, v, env, res, sc, depth=0):
+    """concrete value (unsigned 64-bit arithmetic) of the register/constant v, with loads of named scanner variables taken from env"""
+    M = 1 << 64
+    if v[0] == 'int': return v[1] % M
+    if v[0] != 'reg' or depth > 30: return None
+    d = fn.def_of(v)
+    if d is None: return None
+    if d.op == 'load':
+        l = res.loc(d.ops[0])
+        for canon, val in env.items():
+            if sc.is_var(l, canon): return val % M
+        return None
+    if d.op in ('zext', 'sext', 'trunc', 'bitcast'): return _eval_slice(fn, d.ops[0], env, res, sc, depth + 1)
+    if d.op in ('add', 'sub', 'mul'):
+        a = _eval_slice(fn, d.ops[0], env, res, sc, depth + 1); b = _eval_slice(fn, d.ops[1], env, res, sc, depth + 1)
+        if a is None or b is None: return None
+        return {'add': a + b, 'sub': a - b, 'mul': a * b}[d.op] % M
+    if d.op == 'icmp':
+        a = _eval_slice(fn, d.ops[0], env, res, sc, depth + 1); b = _eval_slice(fn, d.ops[1], env, res, sc, depth + 1)
+        if a is None or b is None: return None
+        sa = a - M if a >= M // 2 else a; sb = b - M if b >= M // 2 else b
+        return int({'eq': a == b, 'ne': a != b, 'ugt': a > b, 'uge': a >= b, 'ult': a < b, 'ule': a <= b,
+                    'sgt': sa > sb, 'sge': sa >= sb, 'slt': sa < sb, 'sle': sa <= sb}[d.pred])
+    return None
+
+def r5(ctx, sc):
+    """R5: yyensure_buffer_stack() leaves room for one push.  Its growth test is evaluated for every (top, max) with
+    0 <= top < max <= 12: whenever the test sends control past the reallocation, top + 1 < max must hold, because
+    yypush_buffer_state() increments yy_buffer_stack_top and stores the new buffer at that index straight afterwards."""
+    rep = ctx.rep; v = sc.v
+    f = sc.fn('yyensure_buffer_stack')
+    if f is None: return 0
+    res = ir.Resolver(f); cfg = sc.prog.cfg(f)
+    grows = sc.calls(f, 'yyrealloc')
+    if not grows: rep.broken('C11.R5: yyensure_buffer_stack of %s never reallocates the stack' % v.name)
+    tests = []
+    for b in f.blocks:
+        br = b.ins[-1]
+        if br.op != 'br' or not br.ops: continue
+        names = set()
+        for d in flow.value_slice(f, br.ops[0]):
+            if d.op == 'load':
+                for canon in ('yy_buffer_stack_top', 'yy_buffer_stack_max'):
+                    if sc.is_var(res.loc(d.ops[0]), canon): names.add(canon)
+        if names == {'yy_buffer_stack_top', 'yy_buffer_stack_max'}: tests.append(br)
+    key = sc.key('C11.R5', 'yyensure_buffer_stack', 'room-for-one-push')
+    if len(tests) != 1:
+        rep.broken('C11.R5: %d branches of yyensure_buffer_stack in %s compare yy_buffer_stack_top with yy_buffer_stack_max (1 expected)' % (len(tests), v.name))
+    br = tests[0]
+    # which target avoids the reallocation?
+    side = []
+    for k, t in enumerate(br.targets):
+        blk = f.bmap[t]
+        reach = cfg.reach_from_block(blk)
+        side.append(any(x in grows for x in reach) or any(x in grows for x in blk.ins))
+    if side[0] == side[1]: rep.broken('C11.R5: cannot tell the growing side of the capacity test in %s' % v.name)
+    bad = None; n_eval = 0
+    for mx in range(1, 13):
+        for top in range(0, mx):
+            c = _eval_slice(f, br.ops[0], {'yy_buffer_stack_top': top, 'yy_buffer_stack_max': mx}, res, sc)
+            if c is None: rep.broken('C11.R5: capacity test of yyensure_buffer_stack in %s is not a function of top and max only' % v.name)
+            n_eval += 1
+            grows_here = side[0] if c else side[1]
+            if not grows_here and not top + 1 < mx and bad is None: bad = (top, mx)
+    if bad:
+        rep.fail('C11.R5', key, where(br), 'yyensure_buffer_stack does not grow the stack for yy_buffer_stack_top = %d, yy_buffer_stack_max = %d, but the push that follows stores '
+                 'the new buffer at index %d: one slot past the end of the array [variant %s]' % (bad[0], bad[1], bad[0] + 1, v.name), variant=v.describe(),
+                 replay_input='nest yypush_buffer_state() calls (ASan reports the first push past the end)')
+    else:
+        rep.ok('C11.R5', '%s yyensure_buffer_stack: the growth test leaves top + 1 < max on the no-growth side (%d evaluations)' % (v.name, n_eval))
+    return 1
+
+# ---------------------------------------------------------------- driver
+
 def run(ctx):
     rep = ctx.rep
     vs = ctx.variants()
@@ -334,12 +410,14 @@ def run(ctx):
         if r2(ctx, sc): c_scan += 1
         r3(ctx, sc)
         r4(ctx, sc)
+        r5(ctx, sc)
     rep.require(backs >= {'nr', 'r', 'cxx', 'c99', 'go'}, 'C11.R1 ran only on back ends %s' % sorted(backs))
     rep.setcount('variants_analysed', len(vs))
     rep.setcount('variants_with_yy_scan_buffer', c_scan)
     rep.floor('C11.R1', 800, 'save+load for three functions and the slot reset of yy_delete_buffer in >=110 variants')
     rep.floor('C11.R2', 270, 'three tests in yy_scan_buffer of >=90 C variants')
     rep.floor('C11.R3', 90, 'yy_scan_bytes of >=90 C variants')
+    rep.floor('C11.R5', 100, 'yyensure_buffer_stack of >=100 variants')
     rep.floor('C11.R4', 850, 'locality + 6 stores + conditional reload in yy_flush_buffer of >=110 variants')
     rep.undecided += ['no loss, duplication or reordering of input across arbitrary histories of switches (value-level)',
                       'that user code does not keep pointers into a buffer across a switch',
